@@ -639,6 +639,9 @@ impl<const K: u8> StreamHandler<Item> for Probe<K> {
         for step in &beh.finished {
             self.do_step(ctx, None, step).await;
         }
+        if with_case(|c| c.fault_finish_panic(actor)) {
+            std::panic::panic_any(InjectedPanic);
+        }
         log(EvKind::Cb { actor, value: self.value, inc: self.inc, cb: Cb::Finished, enter: false });
     }
 }
@@ -722,6 +725,10 @@ where
             let late = timeout.filter(|t| t % 2 == 1);
             if let Some(t) = early {
                 b = b.timeout(Duration::from_millis(t as u64)).fail_on_timeout(*fail_on_timeout);
+            }
+            if timeout.is_none() && *fail_on_timeout {
+                // fail_on_timeout without any timeout: nothing can ever time out
+                b = b.fail_on_timeout(true);
             }
             let mut b = match mailbox {
                 Mailbox::Unbounded => b.unbounded(),
